@@ -102,6 +102,10 @@ counters!(
     probe_concurrent_submit,
     probe_mt_release,
     probe_pool_id_collision,
+    probe_pool_cross_ring,
+    probe_late_builder_call,
+    probe_readbuf_wide_slice,
+    probe_composite_direct,
     // Totals.
     total_ops_created,
     total_ops_completed,
